@@ -203,9 +203,13 @@ def _frame_locals_case(job):
 
 def run(report: Report, tier, seed):
     report.trust("spec/avm.py (load/store/loads/stores, frame ops)")
-    report.assume("assignScratchSlotsToSubroutines (injectivity, identity on requested ids, < 256) is not yet discharged deductively: bounded stand-in with up to 300 live variables",
+    report.assume("region contract (pyvc) on assignScratchSlotsToSubroutines from its entry up to the loop that writes the numbers into the ops: for every finite set of slots the numbering is total, "
+                  "the identity on requested ids, injective, non-negative, and automatic numbers fill the gaps in ascending id order; duplicate requested ids are rejected",
+                  "NOT proved: every number < 256 (pigeonhole over the set's cardinality) - bounded stand-in with 252..300 live variables; that collectScratchSlots returns every slot of every op "
+                  "(summarised: allSlots is an arbitrary finite set); the write-back loop (op.assignSlot)",
+                  "summaries under a syntactic guard: sorted(allSlots, key=lambda slot: slot.id) = duplicate-free enumeration in non-decreasing id order; validateSlots called with slotsInUse=global_slots",
                   "A5 L-cell: injective assignment + AVM load/store semantics give cell behaviour")
-    run_contracts(report, [("contracts.c10_slots", "ScratchSlotInit", "O10.1")])
+    run_contracts(report, [("contracts.c10_slots", "ScratchSlotInit", "O10.1"), ("contracts.c10_assign", "AssignSlots", "O10.2")])
     limits(report)
     sizes = [1, 2, 17, 100, 200, 252, 253, 260, 300] if tier == "quick" else list(range(1, 30)) + [50, 100, 150, 200, 240, 250, 251, 252, 253, 254, 255, 256, 257, 260, 300]
     jobs = []
@@ -229,7 +233,18 @@ def run(report: Report, tier, seed):
     report.bounded.append(Bounded(function="alloc_abstract_var beyond 128 frame locals", contract="ABI temporaries stay distinct cells", bound="1..140 temporaries in a frame-pointer subroutine, versions 8 and 10",
                                   cases=len(fl), distinct_nontrivial=len(fl), failures=len(fbad)))
     report.extra["explanation"] = "P: ScratchSlot.__init__ (pyvc); E: limit probes; B: many-variable programs on the spec AVM"
-    report.settle_refuted(None)
+    def search(fn, obs):
+        if bad:
+            b0 = bad[0]
+            return {"input": {"job": [b0["n"], b0["seed"], b0["version"], b0["opts"]]}, "what": b0["problems"][0]}
+        if abad:
+            b0 = abad[0]
+            return {"input": {"access": [b0["kinds"], b0["version"], b0["opts"]]}, "what": b0["problem"]}
+        return None
+    report.settle_undecided(search)
+    report.settle_refuted(search)
+    if any(o.status == "refuted" for o in report.obs):
+        bad, abad = bad[:0], abad[:0]
     for b in bad[:3]:
         report.violation(Violation(key=f"cells:{b['n']}:{b['version']}:{b['opts']}", what=f"{b['n']} variables, v{b['version']} {b['opts']}: {b['problems'][0]}"[:400],
                                    replay={"job": [b["n"], b["seed"], b["version"], b["opts"]]}, confirmed_native=True))
@@ -243,6 +258,8 @@ def run(report: Report, tier, seed):
 
 def replay(data):
     r = data["replay"]
+    if isinstance(r, dict) and (r.get("native") or {}).get("input"):
+        r = r["native"]["input"]
     if "job" in r:
         out = many_vars_case(tuple(r["job"]))
         print(out["problems"])
